@@ -215,6 +215,43 @@ def mutate(r, data: bytes):
     return bytes(r.getrandbits(8) for _ in range(k)), f"random{k}"
 
 
+# same-length replacements of a valid multi-byte character inside a string payload: everything else in the message stays
+# consistent, only the text is not UTF-8 any more (surrogates as CESU-8 writers emit them, overlong forms, > U+10FFFF,
+# stray continuation bytes)
+BAD_UTF8 = {
+    2: [b"\xc0\x80", b"\xc1\xbf", b"\xc3\x28", b"\x80\x80"],
+    3: [b"\xed\xa0\x80", b"\xed\xbf\xbf", b"\xed\xa0\xbd", b"\xe0\x80\x80", b"\xe0\x9f\xbf", b"\xe2\x82\x28", b"\xef\xbf\xc0"],
+    4: [b"\xf4\x90\x80\x80", b"\xf0\x80\x80\x80", b"\xf0\x8f\xbf\xbf", b"\xf8\x88\x80\x80", b"\xf0\x9f\x98\x28"],
+}
+GOOD_UTF8 = [c.encode() for c in ("\u20ac", "\u4e2d", "\u0416", "\u00e9", "\U0001f600", "\U00010000", "\ufeff", "\u0800", "\ud7ff", "\u07ff")]
+
+
+def utf8_variants(r, base: bytes, limit=3):
+    out = []
+    for good in GOOD_UTF8:
+        pos = base.find(good)
+        if pos >= 0:
+            bad = r.choice(BAD_UTF8[len(good)])
+            out.append((base[:pos] + bad + base[pos + len(good):], f"badutf8@{pos}:{bad.hex()}"))
+        if len(out) >= limit:
+            break
+    return out
+
+
+def neglen_variants(r, base: bytes, pad_len=40000):
+    """a two- or four-byte field early in the message set to a value with the top bit set (a negative length that is not
+    -1, or a huge unsigned one), followed by far more well-formed text than any such length could ask for"""
+    out = []
+    pad = b"k" * pad_len
+    for _ in range(2):
+        if len(base) < 4:
+            break
+        p = r.randrange(0, min(len(base) - 1, 24))
+        pat = r.choice([b"\x80\x00", b"\x80\x01", b"\xc0\x00", b"\xff\xfe", b"\x80\x00\x00\x00", b"\xff\xff\xff\xfe", b"\x80\x00\x01\x00"])
+        out.append((base[:p] + pat + base[p + len(pat):] + pad, f"neglen@{p}:{pat.hex()}+pad"))
+    return out
+
+
 def malformed(ctx, classes, n_schema, gen, per_class, base_cases=None):
     r = gen.r
     from kio.serial import entity_writer
@@ -230,12 +267,22 @@ def malformed(ctx, classes, n_schema, gen, per_class, base_cases=None):
         t0 = time.perf_counter()
         cc.impl_decode(cls, base)
         t_valid = time.perf_counter() - t0
-        for _ in range(per_class):
-            data, desc = mutate(r, base)
+        extra = utf8_variants(r, base)
+        if cls.__name__ in ("RequestHeader", "ResponseHeader"):
+            # systematically: every offset of a header, a 16-bit value with the top bit set, enough text behind it
+            for p in range(0, max(0, min(len(base) - 1, 24))):
+                for pat, pad_len in ((b"\x80\x00", 33000), (b"\xff\xfe", 66000)):
+                    extra.append((base[:p] + pat + base[p + 2:] + b"k" * pad_len, f"neglen@{p}:{pat.hex()}+pad"))
+        elif idx % 40 == 0:
+            extra += neglen_variants(r, base)
+        todo = [mutate(r, base) for _ in range(per_class)] + extra
+        for data, desc in todo:
             t0 = time.perf_counter()
             dec = cc.impl_decode(cls, data)
             dt = time.perf_counter() - t0
             case = {"cls": idx, "input": data, "dec": dec, "mutation": desc, "base": base}
+            if desc.startswith("neglen") and cls.__name__ in ("RequestHeader", "ResponseHeader"):
+                case["skip_model"] = True       # dozens of 30-60 KB inputs: evaluated on the implementation only
             ok, why = True, None
             if dec[0] == "err":
                 if dec[1] not in PERMITTED:
